@@ -868,7 +868,10 @@ NON_GENERABLE_KNOWN_MASS = [
 # descriptor (open right terminal without suffix, a lone token with a descriptor).  Iteration may refuse (raise) when that
 # component comes up; it must never yield an incomplete molecule and never end silently short of the system mass.
 OPEN_ENDED_COMPONENTS = ["OC{[$][$]CC[$][$]}|uniform(40, 80)|", "C{[>][<]CC[>][<]}|gauss(80, 10)|", "CC[$]", "[<]CC[>]",
-                         "{[][<]CCO[>]; [<]C[>]}|poisson(60)|", "N{[$][$]CC(C)[$], [$]CO[$][$]}|flory_schulz(0.05)|"]
+                         "{[][<]CCO[>]; [<]C[>]}|poisson(60)|", "N{[$][$]CC(C)[$], [$]CO[$][$]}|flory_schulz(0.05)|",
+                         # ... whose open descriptor has weight 0 (a 'dormant' end is still an open end)
+                         "CC[$|0|]", "[<|0|]CC[>|0.0|]", "[H]{[>][<]CC([>])c1ccccc1[<]}|gauss(300, 30)|[<]CC[>|0|]",
+                         "C{[$] [$]C(CC[<])C[$2|0|], [>]CC[<]; [>][H] [$2]}|uniform(100, 101)|", "OC{[$][$|0|]CC[$|0|][$]}|uniform(40, 80)|"]
 CLOSED_COMPONENTS = ["CCO", "CCCC", "O", "C{[>][<]CC[>][<]}|gauss(80, 10)|C", "{[][<]CCO[>]; [<]C, [>]F[]}|poisson(60)|", "c1ccccc1C"]
 
 
